@@ -151,10 +151,7 @@ func render(e *E, mode ParenMode, out *[]Tok) {
 		l, r := e.A[0], e.A[1]
 		needL := precOf(l) < p
 		needR := precOf(r) <= p
-		if e.V == "|" {
-			// union operands are PathExpr; never parenthesise here
-			needL, needR = false, false
-		} else if mode == FullParens {
+		if mode == FullParens {
 			if l.K == "bin" || l.K == "neg" {
 				needL = true
 			}
@@ -215,8 +212,8 @@ func renderPath(p *Path, mode ParenMode, out *[]Tok) {
 			}
 			*out = append(*out, Tok{n, "name"})
 			for _, pr := range s.Preds {
-				*out = append(*out, punct("["), Tok{pr.Key, "name"}, Tok{"=", "op"})
-				render(pr.Val, mode, out)
+				*out = append(*out, punct("["))
+				render(Bin("=", Leaf(pr.Key), pr.Val), mode, out)
 				*out = append(*out, punct("]"))
 			}
 		}
@@ -244,9 +241,6 @@ func wordyStart(t Tok) bool {
 // token definitions: names may contain '-', '.', digits; numbers may contain '.').
 func NeedBlank(l, r Tok) bool {
 	if l.K == "num" && r.T == "-" {
-		return false
-	}
-	if l.T == "*" && l.K == "op" {
 		return false
 	}
 	// '/' '/' would become '//', '<' '=' would become '<=' etc.; such pairs are
